@@ -196,6 +196,12 @@ fn record_probes(stats: &mut Stats, tree: &Tree, inv: &Inv, pred: &model::Predic
         if paths.iter().any(|p| !seen.insert(resolve(&inv.cwd, p))) {
             stats.probe("duplicate-path-in-argv");
         }
+        if paths.iter().any(|p| p != "/dev/stdin" && matches!(resolve_phys(tree, &inv.cwd, p), Ok(k) if Some(&k) != resolve(&inv.cwd, p).as_ref())) {
+            stats.probe("dotdot-after-directory-link");
+        }
+        if paths.iter().any(|p| matches!(resolve_phys(tree, &inv.cwd, p), Err(PathErr::NotDir))) {
+            stats.probe("path-through-a-regular-file");
+        }
         if paths.len() >= 7 {
             stats.probe("seven-or-more-paths");
         }
@@ -266,9 +272,8 @@ fn canary(inv: &Inv, pred: &model::Prediction, out: &run::Outcome, fired: &run::
             // liveness only (a tool may give up before it walks, e.g. when a lock is refused)
         }
         Shape::Stdin { .. } => {
-            if !out.trace.iter().any(|e| e.sym == "read" && e.target == "@0") {
-                return Some("stdin mode without a read of fd 0 in the trace".into());
-            }
+            // liveness only (standard input can be read in ways that do not pass read(0): by
+            // opening /dev/stdin, by mapping it - whether the result is right is for the invariants)
         }
         _ => {}
     }
@@ -302,6 +307,17 @@ pub fn run_case(env: &Env, case: &Case, oracle: &mut Oracle, mut fill: Option<Pl
         result.harness_error = Some(format!("pin: {e}"));
         return result;
     }
+    // one case in six, and only when the harness runs as root (for whom permission bits decide
+    // nothing): a quarter of the files lose their write bits or all bits - a read-only checkout,
+    // a vendored tree. What the tool may and may not do is a matter of what the kernel allows,
+    // not of what the mode says.
+    if case.seed % 6 == 1 && unsafe { libc::geteuid() } == 0 {
+        if let Err(e) = world::chmod_some(&root, case.seed) {
+            result.harness_error = Some(format!("chmod: {e}"));
+            return result;
+        }
+        stats.probe("files-without-write-permission-bits");
+    }
     let fine = {
         use std::sync::OnceLock;
         static FINE: OnceLock<bool> = OnceLock::new();
@@ -315,6 +331,7 @@ pub fn run_case(env: &Env, case: &Case, oracle: &mut Oracle, mut fill: Option<Pl
         }
     };
     let mut tree = case.tree.clone();
+    let mut droppings: BTreeSet<String> = BTreeSet::new();
     let mut events_hint = 40usize;
     let mut prev_write_inv: Option<(Shape, Cfg, String)> = None;
     let mut nontrivial = false;
@@ -327,7 +344,10 @@ pub fn run_case(env: &Env, case: &Case, oracle: &mut Oracle, mut fill: Option<Pl
                 }
                 world::apply_edit_model(&mut tree, e);
                 match world::snapshot(&root) {
-                    Ok(s) => seen_before = s,
+                    Ok(mut s) => {
+                        s.retain(|k, _| !droppings.iter().any(|d| k == d || is_below(k, d)));
+                        seen_before = s
+                    }
                     Err(err) => {
                         result.harness_error = Some(format!("snapshot: {err}"));
                         break;
@@ -406,7 +426,10 @@ pub fn run_case(env: &Env, case: &Case, oracle: &mut Oracle, mut fill: Option<Pl
                     let mut f1 = fired.clone();
                     f1.stdin_failed = true;
                     let p1 = model::predict(&tree, &inv, &f1, oracle);
-                    let after1 = world::snapshot(&root).ok();
+                    let after1 = world::snapshot(&root).ok().map(|mut s| {
+                        s.retain(|k, _| !droppings.iter().any(|d| k == d || is_below(k, d)));
+                        s
+                    });
                     if let Some(a1) = &after1 {
                         if model::check(idx, &tree, &seen_before, &inv, &p1, a1, &out).is_empty() {
                             fired.stdin_failed = true;
@@ -414,13 +437,17 @@ pub fn run_case(env: &Env, case: &Case, oracle: &mut Oracle, mut fill: Option<Pl
                     }
                 }
                 let pred = model::predict(&tree, &inv, &fired, oracle);
-                let after = match world::snapshot(&root) {
+                let mut after = match world::snapshot(&root) {
                     Ok(s) => s,
                     Err(e) => {
                         result.harness_error = Some(format!("snapshot: {e}"));
                         break;
                     }
                 };
+                // hidden entries the tool itself created in an earlier step (a staging file left by
+                // a crash, a cache): its own business from then on - it may reuse, replace or
+                // remove them - and outside the walk anyway
+                after.retain(|k, _| !droppings.iter().any(|d| k == d || is_below(k, d)));
                 result.digests.push(run::log_digest(&root, &out));
                 if std::env::var_os("VSIM_KEEP_LOGS").is_some() {
                     result.logs.push(run::log_text(&root, &out));
@@ -480,6 +507,26 @@ pub fn run_case(env: &Env, case: &Case, oracle: &mut Oracle, mut fill: Option<Pl
                     break;
                 }
                 // advance the model to what is on disk (equal to the prediction where exact)
+                let mut after = after;
+                for k in after.keys() {
+                    if !tree.contains_key(k) && k.split('/').any(|c| c.starts_with('.')) && !droppings.iter().any(|d| is_below(k, d)) {
+                        // (tolerated by the verdict above, or it would not have got here)
+                        let mut acc = String::new();
+                        for comp in k.split('/') {
+                            if !acc.is_empty() {
+                                acc.push('/');
+                            }
+                            acc.push_str(comp);
+                            if !tree.contains_key(&acc) {
+                                break;
+                            }
+                        }
+                        if file_name(&acc).starts_with('.') {
+                            droppings.insert(acc);
+                        }
+                    }
+                }
+                after.retain(|k, _| !droppings.iter().any(|d| k == d || is_below(k, d)));
                 tree = world::snapshot_tree(&after);
                 seen_before = after;
             }
